@@ -176,7 +176,7 @@ def run_unit(ctx, unit):
 READABLE_LAYOUTS = ["linked-directory", "relative-linked-directory", "linked-file", "linked-directory-argument", "nested-directories", "non-utf8-name"]
 
 
-def run_terminal(ctx, unit):
+def run_terminal(ctx, unit, patience=30):
     """No arguments at all and a terminal on standard input ("if omitted the standard in will be used"): what is typed is the
     input, the rows go to stdout, status 0."""
     import pty
@@ -201,16 +201,25 @@ def run_terminal(ctx, unit):
             except OSError:
                 pass
         try:
-            out, err = p.communicate(timeout=30)
+            out, err = p.communicate(timeout=patience)
         except subprocess.TimeoutExpired:
             p.kill()
-            p.communicate()
-            st.inconc("terminal_child_timeout")
+            o2, _ = p.communicate()
+            if patience < 90:
+                # once more, alone and with three times the patience: a process that still sits on the terminal long after the
+                # end of input was typed is not coming back
+                os.close(m)
+                m = None
+                return run_terminal(ctx, unit, patience=90)
+            st.count("conclusive")
+            st.violation("terminal-stdin-hang", "values and Ctrl-D typed on a terminal: the process was still running %d s later (stdout so far %r)" % (patience, (o2 or b"")[:200]),
+                         unit, {"args": unit["targs"]})
             return
     finally:
         if s is not None:
             os.close(s)
-        os.close(m)
+        if m is not None:
+            os.close(m)
     ref = subprocess.run([binary] + unit["targs"], input=b"\n".join(lines) + b"\n", stdout=subprocess.PIPE, stderr=subprocess.PIPE, timeout=60)
     st.count("spawns", 2)
     st.count("conclusive")
